@@ -2667,10 +2667,10 @@ func (r *repoT) GobDecode(b []byte) error {
 	return nil
 }
 
+// GobEncode is called with the repo's read lock held (see saveToStore).  It must not
+// take the read lock again: a recursive read lock deadlocks as soon as a writer
+// queues up between the two acquisitions.
 func (r *repoT) GobEncode() ([]byte, error) {
-	r.RLock()
-	r.RUnlock()
-
 	var buf bytes.Buffer
 	enc := gob.NewEncoder(&buf)
 	if err := enc.Encode(r.id); err != nil {
